@@ -1,7 +1,7 @@
 (* C11 — wire format, model runner and the trace oracle. Definitions only.
    case  : auto_accept should_dial dialable_mask nops (kind peer arg)*
    trace : 1 then per step: 1 nev (kind peer arg)* ncalls (kind peer arg)* (9 numbers per peer)*
-           npend (sid peer)* tasks_alive ; a stuck step is the single number 2 and ends the trace. *)
+           npend (sid peer)* tasks_alive timers_armed_so_far ; a stuck step is the single number 2 and ends the trace. *)
 From Coq Require Import List NArith Bool.
 From V.common Require Import Wire.
 From V.C11 Require Import Model.
@@ -24,9 +24,27 @@ Definition p_op : parser op :=
   | _ => pfail
   end.
 
-Definition decode_case (l : list N) : option (cfg * list op) :=
-  pall (let* aa := pBool in let* sd := pBool in let* mask := pN in let* ops := plist p_op in
-        pret (mkCfg aa sd (fun p => N.testbit mask p), ops)) l.
+(* an operation of a case: a model event, or (kind 19) "all armed timers expire": the harness really
+   sleeps > 5 s and the real futures_timer timers fire, oldest first; the model handles one `Timer p`
+   per armed timer. A case with a SleepAll contains no hook-fired Timer events (they are dropped here
+   and skipped by the harness) because the real timer of a hook-fired entry would fire again. *)
+Inductive gop := GOp (o : op) | GSleepAll.
+
+Definition p_gop : parser gop :=
+  fun l => match l with
+           | 19 :: _ :: _ :: rest => Some (GSleepAll, rest)
+           | _ => match p_op l with Some (o, rest) => Some (GOp o, rest) | None => None end
+           end.
+
+Definition is_sleep (g : gop) : bool := match g with GSleepAll => true | _ => false end.
+Definition is_timer (g : gop) : bool := match g with GOp (Timer _) => true | _ => false end.
+
+Definition decode_case (l : list N) : option (cfg * list gop) :=
+  match pall (let* aa := pBool in let* sd := pBool in let* mask := pN in let* ops := plist p_gop in
+              pret (mkCfg aa sd (fun p => N.testbit mask p), ops)) l with
+  | Some (c, ops) => Some (c, if existsb is_sleep ops then filter (fun g => negb (is_timer g)) ops else ops)
+  | None => None
+  end.
 
 (* ---- encoders ---- *)
 Definition enc_dir (d : dir) : N := match d with DIn => 0 | DOut => 1 end.
@@ -64,7 +82,7 @@ Definition enc_peer (s : st) (p : peer) : list N :=
 Definition dump (s : st) : list N :=
   flat_map (enc_peer s) peers_l ++
   enc_list (fun e : sid * peer => [fst e; snd e]) (sort_by fst (pend s)) ++
-  [N.of_nat (length (tasks s))].
+  [N.of_nat (length (tasks s)); narm s].
 
 Fixpoint enc_run (r : list (st * list uev * list call)) : list N :=
   match r with
@@ -73,17 +91,45 @@ Fixpoint enc_run (r : list (st * list uev * list call)) : list N :=
       1 :: enc_list enc_ev ev ++ enc_list enc_call calls ++ dump s ++ enc_run t
   end.
 
+(* all armed timers fire, oldest first: one Timer step per entry of the snapshot *)
+Fixpoint fire_all (c : cfg) (s : st) (l : list peer) : res :=
+  match l with
+  | [] => ok s
+  | p :: t =>
+      match step c s (Timer p) with
+      | Some (s1, e1, c1) =>
+          match fire_all c s1 t with
+          | Some (s2, e2, c2) => Some (s2, e1 ++ e2, c1 ++ c2)
+          | None => None
+          end
+      | None => None
+      end
+  end.
+
+Definition gstep (c : cfg) (s : st) (g : gop) : res :=
+  match g with GOp o => step c s o | GSleepAll => fire_all c s (timers s) end.
+
+Fixpoint grun (c : cfg) (s : st) (l : list gop) : list (st * list uev * list call) * bool :=
+  match l with
+  | [] => ([], true)
+  | g :: t =>
+      match gstep c s g with
+      | None => ([], false)
+      | Some (s1, ev, calls) => let '(r, b) := grun c s1 t in ((s1, ev, calls) :: r, b)
+      end
+  end.
+
 Definition run_case (l : list N) : list N :=
   match decode_case l with
   | Some (c, ops) =>
-      let '(r, fin) := run c init ops in
+      let '(r, fin) := grun c init ops in
       1 :: enc_run r ++ (if fin then [] else [2])
   | None => [0]
   end.
 
 (* ---- decoding a trace ---- *)
 Record pobs := mkPobs { o_ps : option pstate; o_hsI : bool; o_hsO : bool; o_hopen : bool; o_hval : bool }.
-Record sobs := mkSobs { o_ev : list uev; o_calls : list call; o_peers : list pobs; o_pend : list (sid * peer); o_tasks : N }.
+Record sobs := mkSobs { o_ev : list uev; o_calls : list call; o_peers : list pobs; o_pend : list (sid * peer); o_tasks : N; o_narm : N }.
 
 Definition p_dir : parser dir := let* x := pN in pret (if x =? 0 then DIn else DOut).
 Definition p_ev : parser uev :=
@@ -131,7 +177,8 @@ Definition p_sobs : parser sobs :=
   let* pp := prep 3 p_pobs in
   let* pe := plist (let* x := pN in let* q := pN in pret (x, q)) in
   let* t := pN in
-  pret (mkSobs ev calls pp pe t).
+  let* na := pN in
+  pret (mkSobs ev calls pp pe t na).
 
 (* steps of a trace; the flag tells whether the trace ended with a stuck step *)
 Fixpoint p_steps (fuel : nat) : parser (list sobs * bool) :=
@@ -336,9 +383,17 @@ Definition check_step (c : cfg) (m : omem) (o : op) (x : sobs) : omem * N :=
    N.lor (flag (iso && acc && cl && ans && (leave || rej)) F_GEN)
          (N.lor (flag (leave || negb rej) F_REJ) (N.lor fg owed))).
 
-Fixpoint check_steps (c : cfg) (m : omem) (ops : list op) (tr : list sobs) : N :=
+(* a SleepAll step is a batch of timer events for several peers: only the event grammar and the
+   bookkeeping of the oracle are applied to it *)
+Definition check_batch (m : omem) (x : sobs) : omem * N :=
+  let '(opened', fg) := grammar (m_opened m) (m_gated m) (o_ev x) in
+  (mkOmem (o_peers x) opened' (m_gated m) (m_req m) (m_failed m), fg).
+
+Fixpoint check_steps (c : cfg) (m : omem) (ops : list gop) (tr : list sobs) : N :=
   match ops, tr with
-  | o :: ops', x :: tr' => let '(m', f) := check_step c m o x in N.lor f (check_steps c m' ops' tr')
+  | g :: ops', x :: tr' =>
+      let '(m', f) := match g with GOp o => check_step c m o x | GSleepAll => check_batch m x end in
+      N.lor f (check_steps c m' ops' tr')
   | _, _ => 0
   end.
 
